@@ -42,7 +42,8 @@ BASE_SPEC = [
     ], {}),
 ]
 
-VARIANTS = ('base', 'passport_cascade', 'group_cascade', 'passport_optional', 'car_optional', 'car_nocascade')
+VARIANTS = ('base', 'passport_cascade', 'group_cascade', 'passport_optional', 'car_optional', 'car_nocascade',
+            'group_owner')
 
 
 def spec_variant(name):
@@ -71,6 +72,14 @@ def spec_variant(name):
     elif name == 'car_nocascade':
         attrs, i = attr('Person', 'cars')
         attrs[i][2]['cascade_delete'] = False
+    elif name == 'group_owner':
+        # a collection declared *before* a one-to-one attribute that can refuse: Group(members=[...], owner=p)
+        # links the members first and is refused afterwards when p already owns a group
+        for (n, attrs, opts) in spec:
+            if n == 'Group':
+                attrs.append(('owner', 'req', {'rel': 'Person', 'reverse': 'owns'}))
+            if n == 'Person':
+                attrs.append(('owns', 'opt', {'rel': 'Group', 'reverse': 'owner'}))
     elif name != 'base':
         raise ValueError(name)
     return spec
